@@ -5,9 +5,8 @@ import re
 from . import svast as A
 from . import rt
 from .codegen import PreResolved, ProcGen, Ref, WriteOp, isc, mask
-from .errors import SvElabError, SvError, SvUnsupported
-from .lexer import KEYWORDS
-from .types import BIT_T, INT_T, Const, PArrT, Port, StructT, Var, VecT
+from .errors import SvElabError, SvUnsupported
+from .types import INT_T, Const, PArrT, Port, StructT, Var, VecT
 
 _PLAIN_SLOT = re.compile(r'^V\[(\d+)\]$')
 
@@ -218,7 +217,7 @@ class _Elab:
                 c = Const(self.const_of(cg, init, ptype), ptype)
             self.declare(scope, name, c, where, decl.line)
 
-    def elab_module(self, mod, path, overrides, is_top=False):
+    def elab_module(self, mod, path, overrides):
         """Elaborate one instance of `mod` at hierarchical `path` ('' = top).
         Returns the list of port Vars (in declaration order) and the scope."""
         self.depth += 1
@@ -265,7 +264,6 @@ class _Elab:
             raise SvElabError("%s: parameter override for unknown parameter(s) %s (instance %s)"
                               % (where, sorted(overrides), path or '<top>'))
         # pass 2: processes and instances
-        self.counter = getattr(self, 'counter', 0)
         self.elab_items(mod.items, scope, path, where, '')
         self.depth -= 1
         return ports, scope
@@ -285,10 +283,7 @@ class _Elab:
                 cg.kind = 'ff'
                 cg.in_ff = True
                 cg.line = it.line
-                try:
-                    r = cg.resolve(it.clk)
-                except SvElabError:
-                    raise
+                r = cg.resolve(it.clk)
                 if r.var is None or r.udims or not isc(r.slot) or r.ptype.width != 1 or r.guards:
                     raise SvUnsupported('%s line %d: always_ff clock must be a 1-bit variable' % (where, it.line))
                 cg.stmt(it.body)
@@ -369,7 +364,7 @@ class _Elab:
         if it.name in scope and not genpfx:
             self.issue('dup_identifier', "%s line %d: identifier '%s' declared more than once" % (where, it.line, it.name))
         elif not genpfx:
-            scope[it.name] = None       # occupies the name space; not usable in expressions
+            scope[it.name] = 'instance'  # occupies the name space; not usable in expressions
         if mod is None:
             self.issue('undefined_module', "%s line %d: instance '%s' of undefined module '%s'"
                        % (where, it.line, it.name, it.module))
@@ -628,7 +623,7 @@ def elaborate(source, top=None, **opts):
     d.module_defs_count = dict(source.module_defs_count)
     d._issues.extend(source.issues)
     mod = source.modules[top]
-    ports, scope = el.elab_module(mod, '', None, is_top=True)
+    ports, scope = el.elab_module(mod, '', None)
     d.ports = [Port(v.name, v.kind, v.ptype.width, v.dims, v.type_name) for v in ports]
     d.top_inputs = {v.name: v for v in ports if v.kind == 'input'}
     _finalise(d)
